@@ -184,6 +184,19 @@ fn permutations<T: Clone>(v: &[T]) -> Vec<Vec<T>> {
     out
 }
 
+/// A replica issues every (time, replica) stamp once: two different updates of one key carrying the
+/// same stamp cannot both exist in any system history, so such sets are not generated.
+pub fn jointly_producible(u: &[Upd]) -> bool {
+    for (i, a) in u.iter().enumerate() {
+        for b in &u[i + 1..] {
+            if a.key == b.key && a.time == b.time && a.replica == b.replica {
+                return false;
+            }
+        }
+    }
+    true
+}
+
 /// The merge of a set of updates is only usable as ground truth when it does not depend on the
 /// order in which they are merged (otherwise the set belongs to C07). Returns the fold if so.
 pub fn order_independent_fold(u: &[Upd]) -> Option<Fold> {
